@@ -49,4 +49,6 @@ def shape_files(pid):
 
 def shape_deps(pid):
     import gen_shape
-    return [gen_shape.gen_name(f) for f in shape_files(pid)] + ["Shape_files"]
+    files = shape_files(pid)
+    crates = sorted(set(f.split("/")[1] for f in files))
+    return [gen_shape.gen_name(f) for f in files] + [gen_shape.cargo_gen_name(c) for c in crates] + ["Shape_files", "Shape_lock"]
